@@ -24,6 +24,9 @@ COMMANDS = [
     ['bal'], ['bal', '--flat', '-B'], ['reg'], ['reg', '--sort', 'amount'], ['print'], ['csv'], ['xml'], ['emacs'],
     ['equity'], ['stats'], ['accounts'], ['payees'], ['commodities'], ['prices'], ['reg', '-M'], ['bal', '-X', '$'],
     ['reg', '--subtotal'], ['reg', '--by-payee'], ['cleared'], ['budget'], ['reg', '-p', 'weekly'],
+    ['bal', '--time-report'], ['bal', '--time-report', '--flat'], ['reg', '--dow'], ['reg', '--lots'], ['bal', '--lots', '-V'],
+    ['reg', '--collapse'], ['reg', '--average'], ['bal', '--depth', '1'], ['print', '--raw'], ['reg', '--wide', '--related-all'],
+    ['pricedb'], ['reg', '--deviation'], ['bal', '--percent'], ['reg', '--unround', '-B'], ['bal', '--pivot', 'tag'],
 ]
 
 
@@ -32,7 +35,9 @@ def layouts(ctx, k):
     outs = []
     have_setarch = shutil.which('setarch') is not None
     for i in range(k):
-        env = {'MALLOC_PERTURB_': str((37 * i + 1) % 255), 'PADDING_%d' % i: 'x' * (i * 683)}
+        env = {'PADDING_%d' % i: 'x' * (i * 683)}
+        if i > 0:
+            env['MALLOC_PERTURB_'] = str((37 * i + 1) % 255)     # layout 0 runs with the allocator's default (zeroed fresh pages)
         if i % 3 == 1:
             env['MALLOC_ARENA_MAX'] = '1'
         if i % 3 == 2:
@@ -116,6 +121,7 @@ def run(ctx, n_override=None):
     c02 = importlib.import_module('props.c02')
     c09 = importlib.import_module('props.c09')
     c04 = importlib.import_module('props.c04')
+    c20 = importlib.import_module('props.c20')
     shutil.rmtree(ctx.path('lay'), ignore_errors=True)
     for j in range(n):
         r = rng.random()
@@ -135,11 +141,20 @@ def run(ctx, n_override=None):
         elif r < 0.7:
             text = c04.render(c04.gen_journal(rng, rng.randrange(5, 30)))
             tag = 'c04'
+        elif r < 0.8:
+            # time-clock files (the C20 generator), alone or followed by ordinary transactions
+            case = c20.gen_case(rng)
+            text = c20.render(case)[0]
+            if rng.random() < 0.4:
+                text += '\n' + X.render_journal(c01.gen_journal(rng))
+            tag = 'c20'
         else:
             base = X.render_journal(c01.gen_journal(rng)) if rng.random() < 0.6 else X.render_journal(c09.gen_history(rng)[0])
             text = mutate(rng, base)
             tag = 'mut'
         cmd = list(rng.choice(COMMANDS))
+        if tag == 'c20' and rng.random() < 0.5:
+            cmd = list(rng.choice([['bal', '--time-report'], ['bal', '--time-report', '--flat'], ['reg'], ['bal', '--day-break']]))
         first = run_case(ctx, res, tag, text, cmd, nlay)
         res.count('kind:' + tag)
         if first and (first[1] or first[2]):
